@@ -133,6 +133,8 @@ fam_side('c11_validate_exact', 'C11', 'c11::validate_exact', 's12', 65, 3600, 12
 
 # ---------------------------------------------------------------- C07
 fam_side('c07_outcome_classification', 'C07', 'c07::outcome_classification', 's123', 65, 3000, 10, FULL, props=['C07', 'C14'])
+fam_side('c07_outcome_lone_king', 'C07', 'c07::outcome_lone_king', 's123', 65, 3600, 14, FULL + ' restricted to: side to move has only its king (probe answer decided by the rules, realizable counterexamples)',
+         props=['C07', 'C14'])
 fam_side('c07_castling_never_only_move', 'C07', 'c07::castling_never_only_move', 's12', 65, 2400, 10, FULL + ' x both castlings')
 
 for sk, sc, sd in SIDES:
@@ -218,15 +220,16 @@ for (st, pre), ops in CHAIN_CASES.items():
         variants = [('', 1)] if code < 30 else [('', 2)]
         if code < 20 and ok in ('castling', 'ep', 'queen', 'knight', 'king'):
             variants.append(('_outcome', 2))
+            variants.append(('_rep', 5))
         for suffix, flags in variants:
-            reg('c13_chain_step_s%d_p%d_%s%s' % (st, pre, ok, suffix), 'C13', T, 3600, 14,
+            reg('c13_chain_step_s%d_p%d_%s%s' % (st, pre, ok, suffix), 'C13', T, 3600, 12 if code == 30 else 28,
                 'chain state = stated start position %d after stated concrete prefix %d; one symbolic operation (%s)%s%s'
-                % (st, pre, what, ', then a pop' if flags & 1 else '', ', calculated outcome compared' if flags & 2 else ''),
+                % (st, pre, what, ', then a pop' if flags & 1 else '', (', calculated outcome compared' if flags & 2 else '') + (', repetition table compared' if flags & 4 else '')),
                 'c13::chain_step::<_, %d, %d, %d, %d>' % (st, pre, code, flags), 's13', 66,
                 bounds='pre-states from the stated finite sets START x PREFIX; BaseMoveChain<ArrRepeat>; two or more symbolic pushes are outside',
                 props=['C13', 'C14'])
 for st, gk in [(0, 'pawn'), (0, 'king'), (0, 'castling'), (1, 'pspecial'), (4, 'king'), (5, 'knight')]:
-    reg('c13_chain_eq_s%d_%s' % (st, gk), 'C13', T, 3600, 20, 'two chains (same start / other clocks / no castling rights / another start), one symbolic push of group %s and outcome each' % gk,
+    reg('c13_chain_eq_s%d_%s' % (st, gk), 'C13', T, 3600, 28, 'two chains (same start / other clocks / no castling rights / another start), one symbolic push of group %s and outcome each' % gk,
         'c13::chain_eq::<_, %d, %d>' % (st, KGCODE[gk]), 's13', 66)
 for st, pre, gk in [(1, 3, None), (5, 3, None), (5, 4, None), (0, 3, None), (0, 1, 'king'), (2, 0, 'rook')]:
     reg('c17_walker_s%d_p%d_%s' % (st, pre, gk or 'concrete'), 'C17', T, 3600, 12,
@@ -268,7 +271,7 @@ QUICK = {
            + _g('c03_make_unmake', [('w', 'pspecial'), ('b', 'ep')]),
     'C06': ['c06_wellformed_exact'] + _g('c06_semilegal_validator', [(sd, g) for sd in 'wb' for g in ('king', 'pawn', 'knight', 'bishop', 'rook', 'queen', 'ep')]
            + [('w', 'castling'), ('b', 'castling'), ('w', 'pspecial'), ('b', 'foreign')]) + ['c06_semilegal_gen_pawns_all_w', 'c06_semilegal_gen_pawns_all_b'],
-    'C07': ['c07_outcome_classification_w', 'c07_outcome_classification_b', 'c07_castling_never_only_move_w', 'c07_has_legal_moves_wiring_pawns_w',
+    'C07': ['c07_outcome_classification_w', 'c07_outcome_classification_b', 'c07_outcome_lone_king_b', 'c07_castling_never_only_move_w', 'c07_has_legal_moves_wiring_pawns_w',
             'c07_has_legal_moves_wiring_pawns_b'],
     'C09': ['c09_san_simple_pawn_refused', 'c09_san_into_move_castling_w', 'c09_san_into_move_pawnmove_b', 'c09_san_into_move_pawncapture_w',
             'c09_san_from_move_w_ep', 'c09_san_from_move_b_castling', 'c12_san_parse_total_5'],
@@ -279,7 +282,7 @@ QUICK = {
             'c12_san_parse_total_5', 'c10_uci_parse_exact'],
     'C13': ['c13_chain_step_s0_p0_castling', 'c13_chain_step_s0_p0_ep', 'c13_chain_step_s0_p0_pspecial', 'c13_chain_step_s1_p1_king', 'c13_chain_step_s0_p2_other',
             'c13_chain_step_s5_p4_other', 'c13_chain_step_s3_p0_queen', 'c13_chain_eq_s0_pawn', 'c13_chain_eq_s0_king'],
-    'C14': ['c14_outcome_filter_table', 'c14_chain_outcome_precedence', 'c07_outcome_classification_w', 'c13_chain_step_s5_p4_other', 'c13_chain_step_s5_p4_knight_outcome',
+    'C14': ['c14_outcome_filter_table', 'c14_chain_outcome_precedence', 'c07_outcome_classification_w', 'c07_outcome_lone_king_b', 'c13_chain_step_s5_p4_other', 'c13_chain_step_s5_p4_knight_outcome',
             'c13_chain_step_s3_p0_queen_outcome'],
     'C15': ['c15_leapers_exact', 'c15_between_exact', 'c15_bishop_exact'],
     'C16': ['c16_attackers_exact_w', 'c16_attackers_exact_b'],
@@ -316,7 +319,7 @@ THOROUGH = {
     'C11': ['c11_*'],
     'C12': ['c12_*', 'c10_uci_parse_exact', 'c10_uci_text_roundtrip'],
     'C13': ['c13_chain_step_*', 'c13_chain_eq_*'],
-    'C14': ['c14_*', 'c07_outcome_classification_?', 'c13_chain_step_s5_*', 'c13_chain_step_s3_p0_*', 'c13_chain_step_s2_p0_rook', 'c13_chain_step_s4_p0_king'],
+    'C14': ['c14_*', 'c07_outcome_classification_?', 'c07_outcome_lone_king_?', 'c13_chain_step_s5_*', 'c13_chain_step_s3_p0_*', 'c13_chain_step_s2_p0_rook', 'c13_chain_step_s4_p0_king'],
     'C15': ['c15_*'],
     'C16': ['c16_*'],
     'C17': ['c17_*'],
